@@ -17,7 +17,8 @@ EXPLANATION = ("Thread-context life cycle. R1: the dead-context counter (increme
                "drain. R4: shrink() publishes a fresh, smaller node like growth does (C02.R2/R4 applied to it); the reported capacity "
                "of an unbounded queue is read on the producer side; the backend requests a transit-buffer shrink exactly when the "
                "new node is smaller, and try_shrink replaces storage only when the buffer is empty, resetting positions and mask."
-               ' R6a: stored backtrace records own their data. R6b: the mapping a queue is given is mapped whole and returned whole (header slots agree between _alloc_aligned and _free_aligned).')
+               ' R6a: stored backtrace records own their data. R6b: the mapping a queue is given is mapped whole and returned whole (header slots agree between _alloc_aligned and _free_aligned).'
+               " R8d (= C07.R1d): the 'drained' predicate looks at every thread that has logged. R9 (= C03.R6): the backend ring keeps power-of-two capacities through growth and shrink.")
 NOT_DECIDED = ("'retained contexts = live threads' as a count for all schedules; that statements are not lost across a shrink as "
                "behaviour (C02/C03).")
 ASSUMPTIONS = ["each registered context owns a mapped queue, so 2^32 simultaneously dead contexts cannot exist"]
